@@ -1,49 +1,60 @@
 #!/usr/bin/env python3
-"""Write seeded/<id>/meta.json and seeded/RESULTS.md from the table below (filled in by the main
-session after confirming each change and running the property's check against it)."""
-import json, os
+"""Write seeded/<name>/meta.json and seeded/RESULTS.md.
+
+Inputs per seeded change (directory seeded/<name>/, <name> = Cnn for round 1, Cnn-rK for round K):
+  meta.agent.json  what the authoring sub-agent delivered (summary, breaks, needs, what it ran)
+  confirm.log      the main session's confirmation run where kept (rounds 2+; round 1 was confirmed
+                   with tools/confirm_mutant.sh, log not kept)
+  reverify.json    written by tools/reverify_seeded.sh: the check as it is now, run against a fresh
+                   worktree of /repo HEAD with patch.diff applied
+and the table FIRST below: what the check of that moment did when it first met the change
+(filled in by the main session), and what was strengthened when it missed."""
+import json, os, re
 ROOT = os.path.dirname(os.path.dirname(os.path.abspath(__file__)))
-CONFIRM = "confirmed in the scratch worktree /tmp/mut/<id> (tools/confirm_mutant.sh): `go build ./...` ok; existing tests of the touched packages pass with the change (demo skipped; the authoring sub-agent also ran `go test ./x/... ./app/...`); the demonstration fails with the change and passes after `git checkout` of the changed source file"
-RUN = "tools/try_mutant.sh <id>: rebase the worktree onto /repo HEAD, then `VERIF_REPO=/tmp/mut/<id> VERIF_HARNESS_CMD=dev_<id> ./check <id> --tier quick` (same effect as `git -C /repo apply patch.diff`; a worktree was used so that builders running against /repo were not disturbed)"
-R = {
- "C01": ("caught", "quick seed 1: monitor_fail=2 (FinalizeBlock panics 'division by zero' in the liquidity-incentive BeginBlocker once an epoch's gauges all count zero) -> VIOLATION impl-violation", ""),
- "C02": ("caught", "quick seed 1: corr_mismatch=2 monitor_fail=27 -> VIOLATION impl-violation", ""),
- "C03": ("caught", "quick seed 1: corr_mismatch=13 monitor_fail=13 -> VIOLATION impl-violation", ""),
- "C04": ("caught after strengthening", "first run: 232 cases, exit 0 (no generated swap ended exactly on an initialised tick with nothing remaining); after adding 'swap-to-tick' operations (amounts from the keeper's own ComputeMaxInAmtGivenMaxTicksCrossed, +-1) to harness/amm/gen.go: corr_mismatch=6 monitor_fail=41 (bookkeeping invariant false on the implementation's post-state) -> VIOLATION impl-violation", "harness/amm/gen.go swap-to-tick"),
- "C05": ("caught", "quick seed 1: corr_mismatch=27 monitor_fail=6 (output above the exact curve) -> VIOLATION impl-violation", ""),
- "C06": ("caught", "quick seed 1: corr_mismatch=28 monitor_fail=85 -> VIOLATION impl-violation", ""),
- "C07": ("caught", "quick seed 1: corr_mismatch=1 monitor_fail=1 -> VIOLATION impl-violation", ""),
- "C08": ("caught after strengthening", "first run: 702 cases, exit 0 (no rejected item with >= 6 challengers); after the RejectShares corpus (k = 1..9 challengers, collateral remainders 0,1,k/2,k/2+1,k-1) in harness/dacommon/gen.go: corr_mismatch=7 monitor_fail=15 -> VIOLATION impl-violation", "harness/dacommon/gen.go RejectShares + pile-on"),
- "C09": ("caught", "quick seed 1: corr_mismatch=17 monitor_fail=20 -> VIOLATION impl-violation", ""),
- "C10": ("caught after strengthening", "first run: 420 cases, exit 0 (the reward saver never held exactly zero of a denom while the multiplier was positive); after the corpusZeroSaver histories and the gen:sole-claim / gen:join-drained bias in harness/c10: corr_mismatch=2 monitor_fail=265 (saver no longer covers pending claims, paid above entitlement, a claim fails) -> VIOLATION impl-violation", "harness/c10 corpusZeroSaver + generator bias"),
- "C11": ("caught after strengthening", "first run: 363 histories, exit 0 (one channel pair only, so two legs never had equal sequences on different channels); after a second loop-back channel pair with aligned send sequences in harness/c11: corr_mismatch=33 monitor_fail=99 -> VIOLATION impl-violation", "harness/c11 second channel pair, aligned sequences"),
- "C12": ("caught", "quick seed 1: corr_mismatch=5, no monitor failure; the violation search (seed 102) found a monitor failure -> VIOLATION impl-violation", ""),
- "C13": ("caught after strengthening", "first run: exit 0 (the transfer-ban clause was not exercised at all); after the ban scenarios of harness/c13/ban.go (plain/multi sends, share token, pool deposits, swaps in/out, fee claims, withdrawals) and monitor 7: monitor_fail=2 (a liquidity provider gains uvrise through fee claims) -> VIOLATION impl-violation", "harness/c13/ban.go + Econ/C13Check.v mon_ban"),
- "C14": ("caught", "quick seed 1: the coverage theorem over the regenerated site list no longer holds (proof obligations broken, theorems=0) and 149 monitor failures (processes diverge on balances/fault counters) -> VIOLATION impl-violation", ""),
- "C15": ("caught", "quick seed 1: corr_mismatch=6 monitor_fail=1 (observed panic) -> VIOLATION impl-violation", ""),
- "C16": ("caught", "quick seed 1: corr_mismatch=240 monitor_fail=720 -> VIOLATION impl-violation", ""),
-  "C17": ("caught", "quick seed 1: the real BeginBlock panics ('negative coin amount') inside the harness's own FinalizeBlock; first reported as VIOLATION ... no-failing-input-found (harness abort = broken correspondence); the orchestrator now reports an implementation panic/failed block during the generated history as impl-violation with the seed as replay", "check: harness abort by an implementation panic is an impl-violation"),
- "C18": ("caught", "quick seed 1: corr_mismatch=21, no monitor failure; the violation search (seed 101) found a monitor failure (admitted below the minimum gas price) -> VIOLATION impl-violation", ""),
- "C19": ("caught", "quick seed 1: corr_mismatch=3 monitor_fail=6 -> VIOLATION impl-violation", ""),
- "C20": ("caught after strengthening", "first run: 344 cases, exit 0 (configurations with colliding digit strings never followed each other in one process); after the call-sequence families of harness/c20/seq.go: corr_mismatch=49 monitor_fail=48 -> VIOLATION impl-violation", "harness/c20/seq.go"),
-}
+S = os.path.join(ROOT, "seeded")
+
+# first encounter: "caught" (monitor failure = failing input), "corr" (caught as a broken
+# correspondence/proof only: VIOLATION ... no-failing-input-found), "missed"; then what was done
+FIRST = json.load(open(os.path.join(S, "first_run.json")))
+
+CONFIRM = ("confirmed by the main session in the authoring scratch worktree: `go build ./...` ok; the repository's tests "
+           "(`go test ./x/... ./app/...`, demonstration skipped) pass with the change; the demonstration fails with the change and "
+           "passes after `git checkout` of the changed source files")
 rows = []
-for pid, r in sorted(R.items()):
-    d = os.path.join(ROOT, "seeded", pid)
-    if not os.path.isdir(d):
+for name in sorted(os.listdir(S)):
+    d = os.path.join(S, name)
+    if not (os.path.isdir(d) and re.match(r"C\d\d", name)):
         continue
     agent = json.load(open(os.path.join(d, "meta.agent.json")))
-    meta = {"property": pid, "summary": agent.get("summary"), "breaks": agent.get("breaks"), "needs": agent.get("needs"),
-            "authoring_agent_ran": agent.get("ran"), "confirmed_by_main_session": CONFIRM.replace("<id>", pid),
-            "check_run": RUN.replace("<id>", pid).replace("dev_" + pid, "dev_" + pid.lower())}
-    if r:
-        meta["detection"], meta["detail"], meta["strengthened"] = r
-    else:
-        meta["detection"], meta["detail"], meta["strengthened"] = "pending", "", ""
+    first = FIRST.get(name, {})
+    rv = json.load(open(os.path.join(d, "reverify.json"))) if os.path.exists(os.path.join(d, "reverify.json")) else {}
+    rnd = int(name.split("-r")[1]) if "-r" in name else 1
+    meta = {
+        "property": name[:3], "round": rnd,
+        "summary": agent.get("summary"), "breaks": agent.get("breaks"), "needs": agent.get("needs"),
+        "authoring_agent_ran": agent.get("ran"),
+        "confirmed_by_main_session": CONFIRM + (" (log: confirm.log)" if os.path.exists(os.path.join(d, "confirm.log")) else ""),
+        "first_run": first.get("result", "?"), "first_run_detail": first.get("detail", ""),
+        "strengthened": first.get("strengthened", ""),
+        "now": rv.get("result", "not re-run"), "now_summary": rv.get("summary", ""), "now_violation": rv.get("violation", ""),
+        "now_repo_head": rv.get("repo_head", ""), "now_command": rv.get("command", ""),
+    }
     json.dump(meta, open(os.path.join(d, "meta.json"), "w"), indent=1)
-    rows.append((pid, meta["detection"], (agent.get("summary") or "")[:160].replace("\n", " "), meta["detail"]))
-with open(os.path.join(ROOT, "seeded", "RESULTS.md"), "w") as f:
-    f.write("# Seeded changes and what the checks did with them\n\nEach change was written by a fresh sub-agent that saw only the property text and a scratch worktree of /repo.\n\n| Property | Result | Change | Check outcome |\n|---|---|---|---|\n")
-    for pid, det, summ, detail in rows:
-        f.write(f"| {pid} | {det} | {summ} | {detail} |\n")
+    rows.append((name, meta))
+
+with open(os.path.join(S, "RESULTS.md"), "w") as f:
+    f.write("# Seeded changes and what the checks did with them\n\n"
+            "Each change was written by a fresh sub-agent that saw only the property text and a scratch worktree of /repo "
+            "(rounds 2+ were also told what earlier rounds had changed, to force different ones). `first run` = the check as it was "
+            "when it first met the change; `now` = the check as committed, re-run by tools/reverify_seeded.sh on a fresh worktree of "
+            "/repo HEAD with the patch applied (`caught` = a monitor fails: concrete failing input; `corr` = caught only as a broken "
+            "correspondence/proof, reported with no-failing-input-found).\n\n")
+    tot = {}
+    for name, m in rows:
+        k = (m["round"], m["first_run"]); tot[k] = tot.get(k, 0) + 1
+    f.write("First-run totals: " + "; ".join(f"round {r}: " + ", ".join(f"{v} {k}" for (rr, k), v in sorted(tot.items()) if rr == r) for r in sorted({r for r, _ in tot})) + "\n\n")
+    f.write("| Change | First run | Now | What was changed in the repository | Strengthening after a miss |\n|---|---|---|---|---|\n")
+    for name, m in rows:
+        summ = (m["summary"] or "")[:220].replace("\n", " ").replace("|", "/")
+        f.write(f"| {name} | {m['first_run']} | {m['now']} | {summ} | {(m['strengthened'] or '').replace('|','/')} |\n")
 print(len(rows), "written")
